@@ -693,6 +693,17 @@ func TestDiff(t *testing.T) {
 				first = &harness.Violation{Signature: sig, Message: msg, Case: caseJSON(ps[k].prog.Text, input)}
 			}
 		}
+		if len(ps) > 0 && rapid.IntRange(0, 2).Draw(rt, "jsondoc") == 0 {
+			c.Label("json-document-input")
+			jsonDocCheck(t, inJSON, input, ps, func(sig, msg, prog string) {
+				if harness.Known(sig) {
+					return
+				}
+				if first == nil {
+					first = &harness.Violation{Signature: sig, Message: msg, Case: caseJSON(prog, input)}
+				}
+			})
+		}
 		if first != nil {
 			cs := first.Case.(map[string]any)
 			c.Set("program", cs["program"])
@@ -750,6 +761,83 @@ func cliCheck(p *jqgen.Prog, inJSON string) (sig, msg string) {
 		return attribute(nil, p, input, nil, ref, "cli-error-without-stderr"), fmt.Sprintf("the program fails (exit %d) but nothing was written to stderr", r.Exit)
 	}
 	return "", ""
+}
+
+// jsonDocCheck delivers the input the way a JSON FILE reaches a program in fq:
+// as the result of the json decoder (`TEXT | fromjson`, a decode value whose
+// scalars are gojqx wrappers), not as a plain gojq value.
+//  A. `(TEXT | fromjson) | (P)` against the reference on the parsed value; a
+//     mismatch that `fromjson | tovalue` removes is the listed class
+//     fromjson-result-is-decode-value (by design the result is a decode value);
+//  B. strict, model-free: evaluating P must not CHANGE its input:
+//     `(TEXT|fromjson) as $v | ($v|tojson) as $b | [$v | try (P) catch null] | ($v|tojson) == $b`
+//     (jq values are immutable in the reference; seed C07-3 mutated a shared
+//     big integer in `length`, which the tovalue variant of A would have masked).
+func jsonDocCheck(t testing.TB, inJSON string, input any, ps []pair, fail func(sig, msg, prog string)) {
+	lit, err := json.Marshal(inJSON)
+	if err != nil {
+		return
+	}
+	doc := "(" + string(lit) + " | fromjson)"
+	// the reference runs on what the TEXT parses to (a generated float64 1e17
+	// prints as an integer and parses back as an int, which adds exactly)
+	docInput, err := parseInput(inJSON)
+	if err != nil {
+		return
+	}
+	input = docInput
+	var as, bs []string
+	var sel []pair
+	for _, p := range ps {
+		if p.ref.Compile || p.prog.Has("input") || p.prog.Has("$__loc__") {
+			continue
+		}
+		p.ref = refRun(refPrelude, p.prog.Text, docInput)
+		if p.ref.Timeout || p.ref.Panic != "" || p.ref.Compile {
+			continue
+		}
+		sel = append(sel, p)
+		as = append(as, doc+" | ("+p.prog.Text+")")
+		bs = append(bs, doc+" as $c07v | ($c07v | tojson) as $c07b | [$c07v | try ("+p.prog.Text+") catch null] | ($c07v | tojson) == $c07b")
+	}
+	if len(sel) == 0 {
+		return
+	}
+	harness.ExtraAdd("json_document_input_pairs", int64(len(sel)))
+	if res, err, _ := eng.fqBatch(t, nil, bs); err == nil {
+		for i, r := range res {
+			if r.Failed && len(r.Values) == 0 {
+				continue // P does not terminate normally under try (break out of an outer label etc.)
+			}
+			if len(r.Values) == 1 && r.Values[0] == false {
+				fail("json-input-changed-by-program", fmt.Sprintf("after evaluating the program on the JSON document %s the document reads differently (tojson before != after)", inJSON), sel[i].prog.Text)
+				return
+			}
+		}
+	}
+	res, err, _ := eng.fqBatch(t, nil, as)
+	if err != nil {
+		return // batch level failures are TestDiff's business (plain delivery)
+	}
+	for i, p := range sel {
+		kind, m := diff(res[i], p.ref)
+		if kind == "" {
+			continue
+		}
+		// is it the listed class?  (the program itself need not call fromjson)
+		v, verr, _ := eng.fqBatch(t, nil, []string{"(" + string(lit) + " | fromjson | _tovalue({bits_format: \"string\"})) | (" + p.prog.Text + ")"})
+		if verr == nil && len(v) == 1 {
+			if k, _ := diff(v[0], p.ref); k == "" {
+				if !res[i].Failed && !p.ref.Failed && orderOnly(res[i], p.ref) {
+					fail("fromjson-object-key-order", m, p.prog.Text)
+				} else {
+					fail("fromjson-result-is-decode-value", m, p.prog.Text)
+				}
+				continue
+			}
+		}
+		fail(attribute(t, p.prog, input, &res[i], p.ref, "json-doc-"+kind), m, p.prog.Text)
+	}
 }
 
 func trunc(s string, n int) string {
